@@ -84,124 +84,7 @@ Proof.
 Qed.
 End Plan.
 
-(** ** one version chain under concurrent add-version calls *)
-(** The system: the object store, the clients' machines, and two ghosts: the
-    successive values of [latest] ([g_hist], oldest first) and the next fresh
-    version id.  Clients start calls (add-version takes the next fresh id, as
-    a random uuid would be), perform one request at a time in any order, may be
-    dropped at any point (error before effect, crash) or have a request
-    performed and then be dropped (lost reply).  Cleanup is not part of this
-    system (C10). *)
-Record gsys := {
-  g_store : ostore;
-  g_clients : gmap nat cpc;
-  g_hist : list N;
-  g_next : N
-}.
-
-Inductive gev :=
-| GStartAdd (i : nat) (p pl : N)
-| GStartGet (i : nat) (p : N)
-| GStartAddSnap (i : nat) (v pl : N)
-| GStartGetSnap (i : nat)
-| GStep (i : nat) (now : N)
-| GDrop (i : nat)
-| GFailAfter (i : nat) (now : N).
-
-Section Chain.
-Variable rank : N -> N.
-Variable pagesz : nat.
-Variable threshold : N.
-
-Definition hist_after (st st' : ostore) (h : list N) : list N :=
-  if bool_decide (o_latest st' = o_latest st) then h
-  else match o_latest st' with Some c => h ++ [c] | None => h end.
-
-Definition gstep (s : gsys) (e : gev) : gsys :=
-  let start i c :=
-    match g_clients s !! i with
-    | None => {| g_store := g_store s; g_clients := <[i := c]> (g_clients s); g_hist := g_hist s; g_next := g_next s |}
-    | Some _ => s
-    end in
-  match e with
-  | GStartAdd i p pl =>
-      match g_clients s !! i with
-      | None => {| g_store := g_store s; g_clients := <[i := A0 p (g_next s) pl]> (g_clients s);
-                   g_hist := g_hist s; g_next := (g_next s + 1)%N |}
-      | Some _ => s
-      end
-  | GStartGet i p => start i (G0 p [] None)
-  | GStartAddSnap i v pl => start i (S0 v pl)
-  | GStartGetSnap i => start i T0
-  | GStep i now =>
-      match g_clients s !! i with
-      | Some c =>
-          match cl_next c with
-          | inl q =>
-              let '(r, st') := ostore_step rank pagesz now (g_store s) q in
-              let c' := cl_resume rank threshold c r in
-              {| g_store := st';
-                 g_clients := match c' with CDone _ => delete i (g_clients s) | _ => <[i := c']> (g_clients s) end;
-                 g_hist := hist_after (g_store s) st' (g_hist s); g_next := g_next s |}
-          | inr _ => s
-          end
-      | None => s
-      end
-  | GDrop i => {| g_store := g_store s; g_clients := delete i (g_clients s); g_hist := g_hist s; g_next := g_next s |}
-  | GFailAfter i now =>
-      match g_clients s !! i with
-      | Some c =>
-          match cl_next c with
-          | inl q =>
-              let '(_, st') := ostore_step rank pagesz now (g_store s) q in
-              {| g_store := st'; g_clients := delete i (g_clients s);
-                 g_hist := hist_after (g_store s) st' (g_hist s); g_next := g_next s |}
-          | inr _ => s
-          end
-      | None => s
-      end
-  end.
-
-Definition gsys0 : gsys := {| g_store := ostore0; g_clients := ∅; g_hist := []; g_next := 1%N |}.
-
-(** the id an add-version machine owns, with its stage *)
-Definition owned (c : cpc) : option N :=
-  match c with A0 _ c _ | A1 _ c _ _ | A2 _ c _ _ | A3 _ c => Some c | _ => None end.
-
-(** only these machines are ever present (no cleanup) *)
-Definition no_cleanup (c : cpc) : Prop :=
-  match c with K0 | K1 _ _ _ | K2 _ _ _ | K3 _ _ _ _ | K4 _ _ | K5 _ => False | _ => True end.
-
-Definition client_ok (s : gsys) (c : cpc) : Prop :=
-  no_cleanup c /\
-  match c with
-  | A0 p c _ | A1 p c _ _ =>
-      (c < g_next s)%N /\ c ∉ g_hist s /\ (forall p', o_vers (g_store s) !! (p', c) = None)
-  | A2 p c _ l =>
-      (c < g_next s)%N /\ c ∉ g_hist s /\ (forall p', is_Some (o_vers (g_store s) !! (p', c)) -> p' = p)
-      /\ is_Some (o_vers (g_store s) !! (p, c))
-      /\ (forall l0, l = Some l0 -> l0 = p)
-  | A3 p c => (c < g_next s)%N /\ c ∉ g_hist s /\ (forall p', is_Some (o_vers (g_store s) !! (p', c)) -> p' = p)
-  | _ => True
-  end.
-
-Definition GInv (s : gsys) : Prop :=
-  (* the ghost history tracks latest *)
-  o_latest (g_store s) = last (g_hist s)
-  /\ NoDup (g_hist s)
-  /\ (forall c, c ∈ g_hist s -> (c < g_next s)%N)
-  (* every version on the chain has its object; a non-first one is a child of its predecessor *)
-  /\ (forall k c, g_hist s !! k = Some c ->
-        exists p, is_Some (o_vers (g_store s) !! (p, c))
-                  /\ (forall k', k = S k' -> g_hist s !! k' = Some p))
-  (* an id names at most one object, and objects only have ids already handed out *)
-  /\ (forall p p' c, is_Some (o_vers (g_store s) !! (p, c)) -> is_Some (o_vers (g_store s) !! (p', c)) -> p = p')
-  /\ (forall p c, is_Some (o_vers (g_store s) !! (p, c)) -> (c < g_next s)%N)
-  (* the clients *)
-  /\ (forall i c, g_clients s !! i = Some c -> client_ok s c)
-  /\ (forall i j c c' x, i <> j -> g_clients s !! i = Some c -> g_clients s !! j = Some c' ->
-        owned c = Some x -> owned c' = Some x -> False).
-End Chain.
+(** the system of concurrent clients and its invariant over all schedules are in CloudInvP.v *)
 
 (** ** the mechanism: a version is committed only by a successful compare-and-swap *)
 Section Mechanism.
